@@ -506,4 +506,25 @@ kind is never a key of another kind. -/
 
 theorem staking_key_spaces_disjoint : Sekai.Keys.disjoint Sekai.Gen.Keys.stores "staking" = true := by decide +kernel
 
+/-! ### two validator records behind one consensus key (recorded finding `C05/claim/consensus-key-of-another-validator`)
+
+`ClaimValidator` looks at the operator address and the moniker of a claim, not at the consensus key it announces. A second
+account may announce the key of an active validator: the engine's set - a set of KEYS - does not change when the second
+record joins (power 1 for a key it holds already) and loses the key when the FIRST record leaves, while the second record
+stays Active in the application's books. The model of this file indexes validators by their key and cannot say this; the
+two-line model below can. -/
+
+/-- the engine applies (key, power) updates to its set of keys -/
+def applyKeyUpdates (set : List Nat) (upd : List (Nat × Nat)) : List Nat :=
+  upd.foldl (fun s u => if u.2 = 0 then s.filter (· != u.1) else if s.contains u.1 then s else s ++ [u.1]) set
+
+/-- keys of the validator records (key, active) the application counts as active -/
+def activeKeysOf (vs : List (Nat × Bool)) : List Nat := (vs.filter (·.2)).map (·.1)
+
+/-- A (key 7) is active and in the set; B joins announcing key 7: update (7, 1), the set stays [7]; A pauses: update (7, 0),
+the set is empty - and B, key 7, is still Active -/
+theorem duplicate_consensus_key_counterexample :
+    applyKeyUpdates [7] [(7, 1)] = [7] ∧ applyKeyUpdates (applyKeyUpdates [7] [(7, 1)]) [(7, 0)] = [] ∧
+    activeKeysOf [(7, false), (7, true)] = [7] := by decide
+
 end Sekai.Props.C05
